@@ -140,8 +140,6 @@ def run_case(case, ctx):
         is_fp = case["call"] == "fixed_poi_fit"
         pi = cfg.poi_index
         sig = f"C05/{case['call']}/{case['optimizer']}/{case['backend']}"
-        if case.get("known_tag"):
-            sig = f"C05/known:{case['known_tag']}/{case['call']}/{case['optimizer']}/{case['backend']}"
         ad = case["backend"] != "numpy"
         configs = [(st_, g) for st_ in (False, True) for g in ((False, True) if ad else (False,))]
         tol_opt = 2e-4 if case["optimizer"] == "scipy" else 2e-3
@@ -150,7 +148,52 @@ def run_case(case, ctx):
             m, c, _ = ref.logpdf_parts(flat_to_pars(cfg, vec), main, aux)
             return -2.0 * (m + c)
 
+        def early_stop(do_stitch, do_grad, target):
+            """True if the same fit at tight tolerance (SLSQP 1e-10 / MIGRAD 1e-5) reaches `target`."""
+            tight = (pyhf.optimize.scipy_optimizer(tolerance=1e-10) if case["optimizer"] == "scipy"
+                     else pyhf.optimize.minuit_optimizer(tolerance=1e-5, strategy=2))
+            backends.use(case["backend"], optimizer=tight)
+            try:
+                if is_fp:
+                    r2 = pyhf.infer.mle.fixed_poi_fit(mu, data, model, list(init), bounds, list(fixed),
+                                                      return_fitted_val=True, do_stitch=do_stitch, do_grad=do_grad)
+                else:
+                    r2 = pyhf.infer.mle.fit(data, model, list(init), bounds, list(fixed), return_fitted_val=True,
+                                            do_stitch=do_stitch, do_grad=do_grad)
+                return float(backends.tonp(r2[1])) <= target + tol_opt
+            except Exception:  # noqa: BLE001
+                return False
+            finally:
+                backends.use(case["backend"], optimizer=case["optimizer"])
+
+        EARLY = f"C05/optimizer_limitation/early_stop_at_default_tolerance/{case['optimizer']}"
+        LOCAL = "C05/optimizer_limitation/local_minimum_of_multimodal_likelihood"
+        xs = {}
+
+        def is_local_min(x, val, eff_fixed):
+            """no feasible point within 1% of the range improves the objective by more than tol_opt/10"""
+            import random
+
+            rng = random.Random(12345)
+            free = [i for i in range(cfg.npars) if not eff_fixed[i]]
+            for _ in range(60):
+                y = list(x)
+                for i in free:
+                    lo, hi = bounds[i]
+                    y[i] = min(max(x[i] + (hi - lo) * 10 ** rng.uniform(-6, -2) * rng.choice([-1, 1]), lo), hi)
+                fy = nll2(y)
+                if fy == fy and fy < val - tol_opt / 10:
+                    return False
+            return True
+
+        def classify(default_name, do_stitch, do_grad, target, x, val, eff_fixed):
+            if early_stop(do_stitch, do_grad, target):
+                return EARLY
+            if is_local_min(x, val, eff_fixed):
+                return LOCAL
+            return default_name
         results = {}
+        cfg_of = {}
         for do_stitch, do_grad in configs:
             kw = dict(return_fitted_val=True, do_stitch=do_stitch, do_grad=do_grad)
             if case["optimizer"] == "minuit":
@@ -201,10 +244,12 @@ def run_case(case, ctx):
                 unc, x = None, arr.tolist()
             val = float(backends.tonp(val))
             results[tag] = val
+            cfg_of[tag] = (do_stitch, do_grad)
             eff_fixed = list(fixed)
             want_fixed = list(init)
             if is_fp:
                 eff_fixed[pi], want_fixed[pi] = True, mu
+            xs[tag] = (list(x), list(eff_fixed))
             for i, v in enumerate(x):
                 lo, hi = bounds[i]
                 if not (lo - 1e-12 * (1 + abs(lo)) <= v <= hi + 1e-12 * (1 + abs(hi))):
@@ -242,8 +287,9 @@ def run_case(case, ctx):
                 if fy == fy and fy < best_other:
                     best_other, arg = fy, y
             if best_other < val - tol_opt:
-                ctx.fail(f"{sig}/better_feasible_point_exists/{case['family']}/{tag}", reported=val, better=best_other,
-                         gap=val - best_other, point=arg)
+                name = classify(f"{sig}/better_feasible_point_exists/{case['family']}/{tag}", do_stitch, do_grad,
+                                best_other, x, val, eff_fixed)
+                ctx.fail(name, reported=val, better=best_other, gap=val - best_other, point=arg, config=tag)
             ctx.err("optimality_gap", max(0.0, (val - best_other) / tol_opt) if math.isfinite(best_other) else 0.0)
             # closed form
             want = None
@@ -265,8 +311,9 @@ def run_case(case, ctx):
                 gap = val - want
                 ctx.err("closed_form_gap", max(0.0, gap / tol_opt))
                 if gap > tol_opt:
-                    ctx.fail(f"{sig}/objective_above_closed_form_optimum/{case['family']}/{tag}", reported=val,
-                             closed_form=want, gap=gap)
+                    name = classify(f"{sig}/objective_above_closed_form_optimum/{case['family']}/{tag}", do_stitch,
+                                    do_grad, want, x, val, eff_fixed)
+                    ctx.fail(name, reported=val, closed_form=want, gap=gap, config=tag)
                 if gap < -1e-6 * (1 + abs(want)):
                     ctx.fail(f"{sig}/objective_below_closed_form_optimum/{case['family']}/{tag}", reported=val,
                              closed_form=want)
@@ -274,7 +321,9 @@ def run_case(case, ctx):
             lo_v, hi_v = min(results.values()), max(results.values())
             if hi_v - lo_v > tol_opt:
                 worst = max(results, key=results.get)
-                ctx.fail(f"{sig}/configuration_dependence/{case['family']}/{worst}", objectives=results)
+                name = classify(f"{sig}/configuration_dependence/{case['family']}/{worst}", *cfg_of[worst], lo_v,
+                                xs[worst][0], results[worst], xs[worst][1])
+                ctx.fail(name, objectives=results, config=worst)
         nfree_nuis = sum(1 for i in range(cfg.npars) if i != pi and not fixed[i])
         ctx.label(f"family={case['family']}", f"call={case['call']}", f"optimizer={case['optimizer']}",
                   f"backend={case['backend']}", f"configs={len(configs)}")
